@@ -16,9 +16,9 @@ def run(tier, seed, replay=None):
     return run_check(
         "C10", tier, seed, ["UnifexModel.Props.C10"], parts,
         rule="generated coroutine PROGRAMS (task nesting depth <= 4, <= 6 leaf awaits incl. cleanup leaves, 0-3 at_coroutine_exit cleanups per frame, "
-             "try/catch around awaits, co_await schedule(k) rescheduling, every exit path: fall off the end / co_return / throw / awaited error / awaited done / stop_if_requested) with scripted "
+             "try/catch around awaits, co_await schedule(k) rescheduling, plain awaitables (ready / await_suspend returning false, true, void, a handle), stop_if_requested() by both routes (awaiter and sender operation), every exit path: fall off the end / co_return / throw / awaited error / awaited done / stop_if_requested) with scripted "
              "leaves (inline or pending; value/error/done; reaction to stop: ignore or complete with value/error/done; scheduler-affine or not), both "
-             "scheduler modes (inline / manual queue, 4 tagged schedulers), three kinds of receiver (inplace_stop_token; no stop token: task connects without the stop-request thunk; foreign stop-token type: inplace_stop_token_adapter), and for every program ONE base event script plus the same script with a stop "
+             "scheduler modes (inline / manual queue, 4 tagged schedulers), three kinds of receiver (inplace_stop_token; no stop token: task connects without the stop-request thunk; foreign stop-token type that COUNTS the callbacks registered on it: inplace_stop_token_adapter, nothing may stay registered after a value/error completion nor after destruction; a late stop request is issued after every operation state is destroyed), two build configurations of the real library (-DNDEBUG, and without NDEBUG = async stacks on: awaitable_wrapper / coro_resumer, UNIFEX_ASSERT active; corpus + every case with a plain awaitable + every 3rd program), and for every program ONE base event script plus the same script with a stop "
              "request inserted at EVERY position (before start, after start, after every completion / scheduler step); each case runs on the REAL "
              "unifex::task<> through ONE interpreter coroutine (C++20, ASan+UBSan, allocation balance, per-frame destruction counters) and on the Lean "
              "machine; observations are compared token for token in emission order; a case is distinct non-trivial when it has at least two events "
@@ -42,6 +42,6 @@ def run(tier, seed, replay=None):
                     "cleanups_run_once_reverse_order_before_parent (INVARIANT over all event sequences: exited frames have run every registered cleanup once, "
                     "trace cleanups = reverse of trace registrations; receiver completed only with an empty stack), frames_destroyed_at_most_once and "
                     "frames_destroyed_once (at the end every frame ever created was destroyed exactly once), stop_reaches_current_await (+_via_scheduler, "
-                    "stop_does_not_reach_cleanup, unstoppable_receiver_ignores_stop), root_completed_at_most_once, settle_quiescent.  Tie: full-trace equality with the real library on "
+                    "stop_does_not_reach_cleanup, unstoppable_receiver_ignores_stop), root_completed_at_most_once, settle_quiescent, stop_if_requested_routes_agree (awaiter and sender route: cancel iff stop was REQUESTED), await_plain_no_suspend / stop_does_not_reach_plain_awaitable, nothing_left_on_receiver_stop_token (Calc/CoroTok: at most one registration on the receiver's stop token, none after a value/error completion, none after destruction).  Tie: full-trace equality with the real library on "
                     "generated programs; an independent Python trace monitor re-checks the cleanup/lifetime discipline on the implementation's trace; "
                     "a differing root outcome or cleanup/lifetime projection is a concrete failing input, any other trace difference a broken correspondence.")
